@@ -72,13 +72,18 @@ struct Ex<'a> {
 
 type R<T> = Result<T, String>;
 
+thread_local! {
+    /// `const NAME: usize = LIT;` items of the translated files (set once in main)
+    static CONSTS: std::cell::RefCell<HashMap<String, u64>> = std::cell::RefCell::new(HashMap::new());
+}
+
 fn lit_u64(l: &syn::LitInt) -> R<u64> {
     l.base10_parse::<u64>().map_err(|e| format!("literal: {e}"))
 }
 
 impl<'a> Ex<'a> {
     fn new(fns: &'a HashMap<String, syn::ImplItemFn>) -> Self {
-        Ex { env: HashMap::new(), lets: Vec::new(), fresh: 0, fns, depth: 0, ret: None, release_plus: false, consts: HashMap::new(), min_choice: None, assume: Vec::new(), opaque: Vec::new() }
+        Ex { env: HashMap::new(), lets: Vec::new(), fresh: 0, fns, depth: 0, ret: None, release_plus: false, consts: CONSTS.with(|c| c.borrow().clone()), min_choice: None, assume: Vec::new(), opaque: Vec::new() }
     }
     fn bind(&mut self, e: String) -> Val {
         self.fresh += 1;
@@ -240,6 +245,7 @@ impl<'a> Ex<'a> {
                 BinOp::Eq(_) => return Ok(Val::Bool(a == b)),
                 BinOp::Ne(_) => return Ok(Val::Bool(a != b)),
                 BinOp::Rem(_) if *b != 0 => return Ok(Val::N(a % b)),
+                BinOp::Div(_) if *b != 0 => return Ok(Val::N(a / b)),
                 _ => {}
             }
             return Ok(Val::N(match op {
@@ -950,6 +956,16 @@ impl<'a> Ex<'a> {
                     Err(format!("macro {n}!"))
                 }
             }
+            Stmt::Item(Item::Const(c)) => {
+                let v = self.eval(&c.expr)?;
+                match v {
+                    Val::N(n) => {
+                        self.consts.insert(c.ident.to_string(), n);
+                        Ok(Val::Unit)
+                    }
+                    _ => Err("local const that is not an integer literal expression".into()),
+                }
+            }
             _ => Err("item statement".into()),
         }
     }
@@ -1130,6 +1146,17 @@ fn main() {
                         _ => {}
                     }
                 }
+            }
+        }
+    }
+    CONSTS.with(|c| *c.borrow_mut() = consts.clone());
+    for it in &file.items {
+        if let Item::Const(c) = it {
+            // constant expressions over literals and earlier constants (`4 * LANE_SIZE`)
+            let v = Ex::new(&fns).eval(&c.expr);
+            if let Ok(Val::N(n)) = v {
+                consts.insert(c.ident.to_string(), n);
+                CONSTS.with(|c| *c.borrow_mut() = consts.clone());
             }
         }
     }
